@@ -288,7 +288,7 @@ structure IdentifyData where
   bodyOk : Bool                    -- the body is readable JSON of an acceptable size and ranges
   featureNegotiation : Bool
   tlsv1 : Bool
-  hbOff : Bool                     -- `heartbeat_interval: -1`
+  hbOff : Bool                     -- `heartbeat_interval: -1` (false: the field is absent / 0 = "leave as is")
   cert : ClientCert                -- what the client does if the server starts a handshake
   deriving Repr
 
@@ -420,16 +420,16 @@ def deniedRes (k : AuthCheck) (b : Broker) (code : String) : Res :=
 def execIdentify (cfg : Config) (c : Conn) (b : Broker) (d : IdentifyData) : Res :=
   if c.state ≠ .init then fatalRes c b "E_INVALID"
   else if d.bodyOk = false then fatalRes c b "E_BAD_BODY"
-  else if d.featureNegotiation = false then okRes { c with hbOff := d.hbOff } b [.ok]
+  else if d.featureNegotiation = false then okRes { c with hbOff := c.hbOff || d.hbOff } b [.ok]
   else if (cfg.hasTls && d.tlsv1) = false then
-    okRes { c with hbOff := d.hbOff } b [.identify false cfg.authEnabled]
+    okRes { c with hbOff := c.hbOff || d.hbOff } b [.identify false cfg.authEnabled]
   else match handshake cfg.certPolicy d.cert with
   | none =>
-    { conn := { c with hbOff := d.hbOff }, broker := b,
+    { conn := { c with hbOff := c.hbOff || d.hbOff }, broker := b,
       replies := [.identify true cfg.authEnabled, .err "E_IDENTIFY_FAILED" true],
       close := true, query := none }
   | some cn =>
-    okRes { c with hbOff := d.hbOff, tls := true, cn := cn } b [.identify true cfg.authEnabled, .ok]
+    okRes { c with hbOff := c.hbOff || d.hbOff, tls := true, cn := cn } b [.identify true cfg.authEnabled, .ok]
 
 /-- `protocolV2.AUTH`. -/
 def execAuth (cfg : Config) (M : Matcher) (ans : Request → Option Resp) (now : Int)
